@@ -181,7 +181,59 @@ let cmd_encc args =
      | Base.Ok (outs, w) -> "ok " ^ hexn_of_bits w ^ " " ^ show_outs outs)
   | _ -> failwith "encc"
 
+(* the same four through a compiled template: c + name *)
+let cmd_cdec compressed args =
+  match args with
+  | nsub :: bits :: tmpl ->
+    let (t, _) = parse_template tmpl in
+    let b = bits_of_hexn bits in
+    let f = if compressed then CompileRun.decode_compressed_c else CompileRun.decode_uncompressed_c in
+    (match f t (nat_of_int (int_of_string nsub)) b with
+     | Base.Err e -> err_string e
+     | Base.Ok ((outs, vals), rest) ->
+       "ok " ^ show_subsets vals ^ " " ^ show_outs outs ^ " " ^ string_of_int (SL.length b - SL.length rest))
+  | _ -> failwith "cdec"
+
+let cmd_cenc compressed args =
+  match args with
+  | vals :: tmpl ->
+    let (t, _) = parse_template tmpl in
+    let f = if compressed then CompileRun.encode_compressed_c else CompileRun.encode_uncompressed_c in
+    (match f t (parse_subsets vals) with
+     | Base.Err e -> err_string e
+     | Base.Ok (outs, w) -> "ok " ^ hexn_of_bits w ^ " " ^ show_outs outs)
+  | _ -> failwith "cenc"
+
+(* ldecu <nsub> <bits> <tableB: id:unithex:scale:ref:nbits,...> <template> : compiled, saved and loaded *)
+let cmd_ldecu args =
+  match args with
+  | nsub :: bits :: tb :: tmpl ->
+    let (t, _) = parse_template tmpl in
+    let b = bits_of_hexn bits in
+    let entries = if tb = "-" then [] else
+        SL.map (fun s -> match String.split_on_char ':' s with
+            | [id; u; sc; r; nb] -> (n_of_string id, { e_id = n_of_string id; e_unit = bytes_of_hex u; e_scale = z_of_string sc;
+                                                      e_refval = z_of_string r; e_nbits = z_of_string nb })
+            | _ -> failwith "tb") (String.split_on_char ',' tb) in
+    let lookup id = SL.assoc_opt id entries in
+    (match CompileRun.decode_uncompressed_l lookup t (nat_of_int (int_of_string nsub)) b with
+     | Base.Err e -> err_string e
+     | Base.Ok ((outs, vals), rest) ->
+       "ok " ^ show_subsets vals ^ " " ^ show_outs outs ^ " " ^ string_of_int (SL.length b - SL.length rest))
+  | _ -> failwith "ldecu"
+
+(* scoped <template> : Compile.scoped *)
+let cmd_scoped args =
+  let (t, _) = parse_template args in
+  if Compile.scoped t then "true" else "false"
+
 let () =
+  register "scoped" cmd_scoped;
+  register "cdecu" (cmd_cdec false);
+  register "cdecc" (cmd_cdec true);
+  register "cencu" (cmd_cenc false);
+  register "cencc" (cmd_cenc true);
+  register "ldecu" cmd_ldecu;
   register "decc" cmd_decc;
   register "encc" cmd_encc;
   register "encg" cmd_encg;
